@@ -421,8 +421,9 @@ func parseDump(s string) (*mState, bool) {
 					return nil, false
 				}
 				fl := e[j+1:]
+				// a version is a pre-release if it is flagged as one (index) or carries a pre-release tag
 				r.vs = append(r.vs, mVer{num: e[:j], sv: sv, avail: strings.Contains(fl, "A"), cur: strings.Contains(fl, "C"),
-					pre: strings.Contains(fl, "P"), bl: strings.Contains(fl, "B")})
+					pre: strings.Contains(fl, "P") || sv.Prerelease() != "", bl: strings.Contains(fl, "B")})
 			}
 		}
 		st.res[r.id] = r
@@ -700,9 +701,10 @@ func checkOp(c hxlib.Case, outs []string, k, at int, before, after *mState, fl r
 			add("C19:blacklist-error-changed-state", fmt.Sprintf("the refused Blacklist(%s,%s) = %s changed the resource: %v sel=%s -> %v sel=%s", id, tok(f[2]), o, verList(br), br.sel, verList(r), r.sel))
 		}
 	case "purge":
+		// "at least the requested number of further versions": the number asked for (Purge itself promises two more)
 		keep, _ := strconv.Atoi(f[1])
-		if keep < 2 {
-			keep = 2
+		if keep < 0 {
+			keep = 0
 		}
 		for _, id := range sortedIDs(before) {
 			br, r := before.res[id], after.res[id]
